@@ -15,8 +15,9 @@ import random
 import shutil
 from pathlib import Path
 
-FILE_NAMES = ["a.md", "b.md", "README.md", "notes.txt", "c.markdown", "big.md", "x.MD", "d.md", "e.mdx", ".hidden.md", "sp ace.md", "ü.md"]
-DIR_NAMES = ["docs", "src", "sub", "deep", "node_modules", "build", ".git", "venv", "pkg.egg-info", "internal", "sp ace", "vendor", "x", "y"]
+FILE_NAMES = ["a.md", "b.md", "README.md", "notes.txt", "c.markdown", "big.md", "x.MD", "d.md", "e.mdx", ".hidden.md", "sp ace.md", "ü.md",
+              "report[1].md", "report1.md", "faq?.md", "st*r.md"]      # existing files whose names hold glob metacharacters
+DIR_NAMES = ["docs", "src", "sub", "deep", "node_modules", "build", ".git", "venv", "pkg.egg-info", "internal", "sp ace", "vendor", "x", "y", "v[2]"]
 
 
 def gen_tree(rng: random.Random, depth=0, ignore_lines=None, gitignore_lines=None) -> dict:
